@@ -20,14 +20,15 @@ Theorem C05_mn_only_on_free_workers : forall w t root w',
 Proof. exact mn_only_on_free_workers. Qed.
 
 (** Every solution of the scheduler's row system, turned into a dispatch, stays within the free
-    resources of every worker and places tasks only where they are runnable (component `sched`). *)
+    resources of every worker and places tasks only where they are runnable (component `sched`);
+    [inst_on I w] resolves `all`-policy entries to the worker's total of the resource. *)
 Theorem C05_feasible_no_overbook : forall I bs m s d,
   SP.inst_wf I ->
   SM.create_task_batches I = Ok bs -> SM.milp_of I bs = Ok m -> SM.feasible m s = true -> SM.mapping_ok I bs s d = true ->
   forall w, In w (SM.i_workers I) ->
     (exists v, SM.free_after I d w = Some v
-               /\ forall r, SM.rv_get v r = (SM.rv_get (SM.w_free w) r - SP.demand I (SP.rqs_on I d (SM.w_id w)) r)%N)
-    /\ (forall r, (SP.demand I (SP.rqs_on I d (SM.w_id w)) r <= SM.rv_get (SM.w_free w) r)%N)
+               /\ forall r, SM.rv_get v r = (SM.rv_get (SM.w_free w) r - SP.demand (SM.inst_on I w) (SP.rqs_on I d (SM.w_id w)) r)%N)
+    /\ (forall r, (SP.demand (SM.inst_on I w) (SP.rqs_on I d (SM.w_id w)) r <= SM.rv_get (SM.w_free w) r)%N)
     /\ (forall rq, In rq (SP.rqs_on I d (SM.w_id w)) -> SM.placeable I w rq = true).
 Proof. exact HQ.Sched.ProofsRows.C05_feasible_no_overbook_thm. Qed.
 
